@@ -20,6 +20,7 @@ for f in "$SRC"/*_test.go; do [ -f "$f" ] || continue; demo="$(basename "$f")"
     pot|pot_test) pkgdir=pot;;
     settlement|settlement_test) pkgdir=settlement;;
     combination|combination_test) pkgdir=combination;;
+    table|table_test) pkgdir=table;;
     *) pkgdir=testcases;;
   esac
   place="$pkgdir/$demo"; run="go test -vet=off -count=1 ./$pkgdir -run ."; done
